@@ -59,6 +59,8 @@ type indexedMessageIterator struct {
 	metadataIndexes   []*MetadataIndex
 	footer            *Footer
 	fileSize          int64
+	// summaryChannels holds every channel the summary defines, selected by topic or not.
+	summaryChannels slicemap[Channel]
 
 	curChunkIndex   int
 	messageIndexes  []messageIndexWithChunkSlot
@@ -145,6 +147,7 @@ func (it *indexedMessageIterator) parseSummarySection() error {
 			if err != nil {
 				return fmt.Errorf("failed to parse channel info: %w", err)
 			}
+			it.summaryChannels.Set(channelInfo.ID, channelInfo)
 			if len(it.topics) == 0 || it.topics[channelInfo.Topic] {
 				it.channels.Set(channelInfo.ID, channelInfo)
 			}
@@ -360,10 +363,11 @@ func (it *indexedMessageIterator) loadChunk(chunkIndex *ChunkIndex) error {
 					}
 					chunkSlot.unreadMessages++
 				}
-			} else if len(it.topics) == 0 {
-				// Channels are known from the summary only. Without a topic selection a message
-				// on an unknown channel means the summary does not repeat the channel records;
-				// skipping it would silently lose data.
+			} else if it.summaryChannels.Get(msg.ChannelID) == nil {
+				// Channels are known from the summary only. A message on a channel the summary
+				// does not define at all (as opposed to one on a topic that is not selected)
+				// means the summary does not repeat the channel records; skipping it would
+				// silently lose data.
 				return fmt.Errorf(
 					"message on channel %d, which the summary section does not define: "+
 						"cannot read this file using the index", msg.ChannelID)
